@@ -15,11 +15,13 @@ FUNCTIONS = ["ckl.date.is_leap_year", "ckl.date.year_days", "ckl.date.month_days
              "ckl.date.to_oa_date", "ckl.date.to_date", "ckl.values.ValueDate.asInt",
              "ckl.values.ValueInt.asDate", "ckl.functions.FuncAdd.execute (date branch)",
              "ckl.functions.FuncSub.execute (date branches)", "ckl.functions.FuncInt/FuncDate"]
-OUTSIDE = ["time of day (floating point tail) -- see harness c17 'tod' cells (per-day FP queries)",
+OUTSIDE = ["time of day (floating point tail): the engine's floats are exact-integral only and z3 does not "
+           "decide the FP round trip within minutes, so the 'tod' cells are a CONCRETE sweep of all 86400 "
+           "seconds on a ladder of days -- evidence of the conversion code, not a solver result",
            "microseconds", "strptime/strftime based conversions", "years outside 1900..9999"]
 ASSUMPTIONS = ["datetime.datetime field validation is modelled by symex.symdate.SymDateTime.make",
                "oracle: datetime.date.toordinal() is the proleptic Gregorian day count"]
-REACH = {"to_oa", "to_date", "arith"}
+REACH = {"to_oa", "to_date", "arith", "tod"}
 PATH_SECONDS = 120
 MAX_DECISIONS = 200000
 MAX_FOLDED = 20000000
@@ -60,6 +62,13 @@ def cells(tier, seed):
     for y in ar_years:
         for m in (1, 2, 3, 12):
             out.append({"k": "arith", "y": y, "m": m})
+    # time of day: floating point tail, concrete sweep (outside the solver claim, see OUTSIDE)
+    days = [(1900, 1, 1), (1970, 1, 1), (2017, 4, 5), (2026, 10, 3), (9999, 12, 31)]
+    if tier != "quick":
+        days += [(1900 + 2 ** i // 365, 6, 15) for i in range(9, 22)]
+    for d in days:
+        for h in range(24):
+            out.append({"k": "tod", "date": list(d), "hour": h})
     return out
 
 
@@ -78,7 +87,7 @@ def mkdate(y, m, d):
 
 
 def run(ctx, cell):
-    k, y = cell["k"], cell["y"]
+    k, y = cell["k"], cell.get("y")
     if k == "to_oa":
         ctx.reach("to_oa")
         m = ctx.int("m", 1, 12)
@@ -118,6 +127,22 @@ def run(ctx, cell):
         else:
             ctx.check(o2.value == V.TRUE, "C17:int-date-inverse:not-identity", lambda: {"n": int(n)})
         return [out.kind, [r.year, r.month, r.day, r.hour, r.minute, r.second]]
+    if k == "tod":
+        ctx.reach("tod")
+        y, m, d = cell["date"]
+        h = cell["hour"]
+        bad = 0
+        for mi in range(60):
+            for se in range(60):
+                src = _dt.datetime(y, m, d, h, mi, se)
+                back = D.to_date(D.to_oa_date(src))
+                if back.replace(microsecond=0) != src or back.microsecond >= 1000:
+                    if back != src:
+                        bad += 1
+                        if bad <= 2:
+                            ctx.fail("C17:time-of-day:round-trip-loses-the-second",
+                                     {"date": src.isoformat(), "back": back.isoformat()})
+        return [bad]
     if k == "arith":
         ctx.reach("arith")
         m = cell["m"]
